@@ -307,7 +307,7 @@ def c04(prop, tier, seed, core):
     work = os.path.join(core.WORK, prop)
     known_sigs = [e["signature"] for e in core.known_for(prop)]
     # a cancel parked behind more forced commands than the ring has slots (one process)
-    add_hostile(m, core, prop, work, tier, ["deep-backlog-cancel", "overlapping-flushes-cancelable", "tls-cancel-in-destructor-cancelable", "plain:cancel-config-matrix", "many-busy-queues-cancel-cancelable"], known_sigs)
+    add_hostile(m, core, prop, work, tier, ["deep-backlog-cancel", "overlapping-flushes-cancelable", "tls-cancel-in-destructor-cancelable", "plain:cancel-config-matrix", "many-busy-queues-cancel-cancelable", "plain:many-traces-per-thread-cancelable"], known_sigs)
     m["rule"] = core.RULES["progsim"] + (" One separate process parks 10300 cancels of a bystander trace and then the cancel of a victim trace behind a full ring "
                                           "(more forced commands than the ring has slots), lets the collector catch up and finishes the roots: nothing of either trace may be delivered, a later trace must be complete. Another process keeps a flush() inside a slow report() while a root is cancelled, a second "
                                           "flush() starts on another thread and late children finish: nothing of the cancelled trace may come out, a bystander trace must come out whole, once. A third one cancels and drops roots inside user thread-local destructors (every initialisation order).")
@@ -336,7 +336,7 @@ def c03(prop, tier, seed, core):
     m = core.check_progsim_family(prop, tier, seed)
     work = os.path.join(core.WORK, prop)
     known_sigs = [e["signature"] for e in core.known_for(prop)]
-    add_hostile(m, core, prop, work, tier, ["many-busy-queues-cancelable", "big-cycle-late-signal-cancelable"], known_sigs)
+    add_hostile(m, core, prop, work, tier, ["many-busy-queues-cancelable", "big-cycle-late-signal-cancelable", "plain:many-traces-per-thread-cancelable"], known_sigs)
     m["rule"] = core.RULES["progsim"] + (" One separate process (cancelable): three rounds in which ten threads queue 10000 commands each between two collector cycles, then a "
                                           "child of a watched trace finishes on a later-registered thread and its root finishes; the watched trace must be delivered whole.")
     return m
